@@ -94,23 +94,29 @@ impl Prop for C18 {
             }
             "hfd" => {
                 let d = *r.pick(&[2u64, 5, 20, 100]);
-                case.cfg = format!("(defcfg rapid-event-delay {red})\n(defsrc a b)\n(defvirtualkeys vk1 1)\n(deflayer l0 (hold-for-duration {d} vk1) x)\n");
+                // a second trigger key holds the same virtual key for a (usually) different duration:
+                // the release is due D after the most recent activation, whichever duration that was
+                let d2 = if r.chance(400) { d } else { *r.pick(&[2u64, 5, 20, 100]) };
+                case.cfg = format!("(defcfg rapid-event-delay {red})\n(defsrc a b)\n(defvirtualkeys vk1 1)\n(deflayer l0 (hold-for-duration {d} vk1) (hold-for-duration {d2} vk1))\n");
                 case.set("d", d);
-                let a = oscode_of("a");
+                case.set("d2", d2);
+                let (ka, kb) = (oscode_of("a"), oscode_of("b"));
                 let mut ops = vec![];
                 let n = r.range(1, 4);
                 for i in 0..n {
+                    let a = if r.chance(600) { ka } else { kb };
                     ops.push(Op::Press(a));
                     let hold = r.range(1, 3);
                     ops.push(Op::Gap(hold as u32));
                     ops.push(Op::Release(a));
                     if i + 1 < n {
                         // re-arm at D-1 / D / D+1 (press-to-press) or clearly inside / outside
-                        let g = (*r.pick(&[d.saturating_sub(1), d, d + 1, d / 2 + 1, d + 10, 3])).max(hold + 1);
+                        let dd = if a == ka { d } else { d2 };
+                        let g = (*r.pick(&[dd.saturating_sub(1), dd, dd + 1, dd / 2 + 1, dd + 10, 3])).max(hold + 1);
                         ops.push(Op::Gap((g - hold) as u32));
                     }
                 }
-                ops.push(Op::Gap((d + 40) as u32));
+                ops.push(Op::Gap((d.max(d2) + 40) as u32));
                 case.ops = ops;
             }
             _ => {
@@ -234,20 +240,25 @@ impl Prop for C18 {
             "hfd" => {
                 st.run_ops(&case.ops);
                 st.gap(40);
-                let d = case.param_u64("d").unwrap_or(20);
-                let a = oscode_of("a");
+                let d1 = case.param_u64("d").unwrap_or(20);
+                let d2 = case.param_u64("d2").unwrap_or(d1);
+                let d = d1.max(d2);
+                let (a, b) = (oscode_of("a"), oscode_of("b"));
                 let mut tm = 0u64;
-                let mut acts: Vec<u64> = vec![];
+                let mut acts_d: Vec<(u64, u64)> = vec![];
                 for op in &case.ops {
                     match op {
                         Op::Gap(n) => tm += *n as u64,
-                        Op::Press(c) if *c == a => acts.push(tm + 1), // activation tick
+                        Op::Press(c) if *c == a => acts_d.push((tm + 1, d1)), // activation tick
+                        Op::Press(c) if *c == b => acts_d.push((tm + 1, d2)),
                         _ => {}
                     }
                 }
+                let acts: Vec<u64> = acts_d.iter().map(|x| x.0).collect();
                 // expected: groups of activations where each re-arm comes before the pending release
                 let mut expected: Vec<(u64, u64)> = vec![]; // (down tick, up tick)
-                for at in &acts {
+                for (at, dur) in &acts_d {
+                    let d = *dur;
                     match expected.last_mut() {
                         Some((_, up_t)) if *at < *up_t => *up_t = *at + d,
                         Some((_, up_t)) if *at == *up_t || *at == *up_t + 1 => {
